@@ -513,11 +513,28 @@ def rt_job(job):
     for mn in pc.MODEL_TEXTS:
         defs[mn] = [(k, a) for k, a, _ in pc.dump_model(pc.new_model(casbin, mn))]
     for i in range(n):
-        mname = rng.choice(["multi", "multi", "multi", "nog", "nog2", "rbac", "dom"])
+        mname = rng.choice(["multi", "multi", "multi", "nog", "nog2", "rbac", "dom", "priomulti"])
         keys = [k for k, _ in defs[mname] if k[0] in "pg"]
         level = rng.choice(["adapter", "enforcer"])
         conform = {k: a for k, a in defs[mname] if k[0] == "g"} if level == "enforcer" else None
         pol = gen_policy(rng, keys, ok=not probe, conform=conform)
+        if mname == "priomulti":
+            # the priority column of p holds ascending numbers already (loading sorts p by it - C07's subject - and must
+            # then be the identity); the other types have no priority field: their order is simply kept
+            prio = 0
+            for k, rules in pol:
+                if k == "p":
+                    for r in rules:
+                        prio += rng.choice([0, 1, 5])
+                        if r:
+                            r[0] = str(prio)
+                    rules[:] = [r for j, r in enumerate(rules) if r and r not in rules[:j]]
+        elif not probe and rng.random() < 0.2:
+            # the same rule twice in one type (reachable by loading a text with a repeated line): it is saved and loaded twice
+            nonempty = [rules for _k, rules in pol if rules and (_k[0] != "g" or level == "adapter")]
+            if nonempty:
+                rules = rng.choice(nonempty)
+                rules.insert(rng.randrange(len(rules) + 1), list(rng.choice(rules)))
         if probe and rng.random() < 0.25:
             # the empty rule / the empty policy
             pol = [(k, ([[]] if rng.random() < 0.5 and level == "adapter" else [])) for k in keys]
